@@ -4,6 +4,7 @@ import (
 	"encoding/json"
 	"fmt"
 	"go/token"
+	"go/types"
 	"os"
 	"path/filepath"
 	"sort"
@@ -161,6 +162,55 @@ func (c *Ctx) load(patterns ...string) error {
 			if p := fn.Parent(); p.Pkg != nil && strings.HasPrefix(p.Pkg.Pkg.Path(), modPrefix) {
 				c.allFns = append(c.allFns, fn)
 			}
+		}
+	}
+	// AllFunctions only reaches methods of types that are converted to interfaces inside the loaded program;
+	// add every declared function and every method of every named type of the repository's packages
+	seenFn := map[*ssa.Function]bool{}
+	for _, f := range c.allFns {
+		seenFn[f] = true
+	}
+	var addFn func(f *ssa.Function)
+	addFn = func(f *ssa.Function) {
+		if f == nil || seenFn[f] {
+			return
+		}
+		seenFn[f] = true
+		c.allFns = append(c.allFns, f)
+		for _, a := range f.AnonFuncs {
+			addFn(a)
+		}
+	}
+	for _, sp := range prog.AllPackages() {
+		if !strings.HasPrefix(sp.Pkg.Path(), modPrefix) {
+			continue
+		}
+		for _, mem := range sp.Members {
+			switch m := mem.(type) {
+			case *ssa.Function:
+				addFn(m)
+			case *ssa.Type:
+				for _, t := range []types.Type{m.Type(), types.NewPointer(m.Type())} {
+					if _, isIface := m.Type().Underlying().(*types.Interface); isIface {
+						continue
+					}
+					if tp, ok := m.Type().(*types.Named); ok && tp.TypeParams().Len() > 0 {
+						continue
+					}
+					ms := prog.MethodSets.MethodSet(t)
+					for i := 0; i < ms.Len(); i++ {
+						fn := prog.MethodValue(ms.At(i))
+						if fn != nil && fn.Pkg == sp {
+							addFn(fn)
+						}
+					}
+				}
+			}
+		}
+	}
+	for _, f := range append([]*ssa.Function{}, c.allFns...) {
+		for _, a := range f.AnonFuncs {
+			addFn(a)
 		}
 	}
 	sort.Slice(c.allFns, func(i, j int) bool { return c.allFns[i].String() < c.allFns[j].String() })
